@@ -200,6 +200,7 @@ func runC02(c *eng.Ctx) {
 	c.Floor(2)
 	c.Rule("R04.5", "K3")
 	ruleNewPartitionKnowsOnlyItsOwnProgress(c)
+	ruleProgressIsWithinTheLeadersLog(c)
 	ruleReplicaProgressSources(c)
 	ruleAddedReplicaUnconfirmed(c)
 	c.Floor(1)
@@ -307,6 +308,7 @@ func runC02(c *eng.Ctx) {
 	// ---- R02.7 ISR shrink/expand shape
 	c.Rule("R02.7", "K1")
 	ruleHealthCheckPeriod(c)
+	ruleRejoiningReplicaHoldsEverythingCommitted(c)
 	if fn := c.Fn("server.(*replicator).tick"); fn != nil {
 		inISR := func(pol bool) []eng.Edge { return eng.BoolEdges(fn, eng.Call(-1, "server.partition.inISR"), pol) }
 		isLagCmp := func(v ssa.Value) bool {
